@@ -11,14 +11,19 @@ has_eff.contract_only = True
 stmt_eff = copy.copy([it for it in DCEFX.items if isinstance(it, Fn) and it.name == "stmt_has_side_effects"][0])
 stmt_eff.contract_only = True
 
+def bind_filter(mt):
+    """`let bind = bind.filter(|bname| { COND });` (Option::filter: keeps the value iff COND) -> `let bind = match bind { Some(bname) => { if COND { Some(bname) } else { None } } None => None };` (COND reads bname by reference)"""
+    cond = re.sub(r"\bcontains\(bname\)", "contains(&bname)", mt.group(1).strip())
+    return "let bind = match bind { Some(bname) => { if " + cond + " { Some(bname) } else { None } } None => None };"
+
+
 PRE = [
     ("for stmt in block.stmts.into_iter().rev() {", "let mut __sv = block.stmts; while __sv.len() > 0 { let stmt = __sv.pop().unwrap();"),
     ("for (val, blk) in cases {", "let ghost __c0 = cases@; let mut __cv = cases; while __cv.len() > 0 { let (val, blk) = __cv.remove(0);"),
     ("for (t, blk) in cases {", "let ghost __t0 = cases@; let mut __tv = cases; while __tv.len() > 0 { let (t, blk) = __tv.remove(0);"),
     ("value.as_ref().map(vars_used_in_expr).unwrap_or_default()", "(match value.as_ref() { Some(__u) => vars_used_in_expr(__u), None => HashSet::new() })"),
     (re.compile(r"for u in &used_rhs \{\s*live\.insert\(u\.clone\(\)\);\s*\}"), "live.union_with(&used_rhs);", "*"),
-    (re.compile(r"let bind = bind\.filter\(\|bname\| \{\s*!\(!cases_live_in\.contains\(bname\) && !default_live_in\.contains\(bname\)\)\s*\}\);"),
-     "let bind = match bind { Some(bname) => { if !(!cases_live_in.contains(&bname) && !default_live_in.contains(&bname)) { Some(bname) } else { None } } None => None };", 1),
+    (re.compile(r"let bind = bind\.filter\(\|bname\| \{(.*?)\n\s*\}\);", re.S), bind_filter, 1),
 ]
 RW = [(re.compile(r"\.clone\(\)"), ".vclone()", "*"), (re.compile(r"\bout\.reverse\(\);"), "vec_reverse(&mut out);", "*"),
       ("let mut new_cases: Vec<(crate::go::goty::GoType, Block)> =", "let mut new_cases: Vec<(GoType, Block)> =")]
@@ -47,7 +52,7 @@ def loop_inv(k, header, kw):
 UNIT = Unit(
     name="U-DCEBLK",
     properties=["C09"],
-    rules=[("strip", "ast::"), "opt_map", "let_chain_rev", "iter_any"],
+    rules=[("strip", "ast::"), "opt_map", "let_chain_rev", "opt_is_some_and", "iter_any"],
     describe="go::dce::dce_block_with_live (statement-level dead-code elimination, all statement kinds, nested blocks) and effect_stmt: the "
              "output block is, in order, the image of each input statement — the statement itself with DCE applied inside it, or, for a "
              "declaration / assignment whose variable is not needed, just the evaluation of its right-hand side, or nothing at all ONLY IF "
